@@ -1085,13 +1085,14 @@ fn c20g_build(cfg: &[u16]) -> Built {
     // [[users]]: who logs in under a configured name (and only who does) is a registered user
     if s.chance(60) {
         let pw = if s.chance(40) { Some("userpass".to_string()) } else { None };
+        let uname = if s.chance(50) { "CfgU" } else { "cfgu" };
         c.users.push(crate::cfgspec::UserSpec {
-            name: "cfgu".into(),
+            name: uname.into(),
             nick: "cfgnick".into(),
             password: pw.clone(),
             mask: [None, None, Some("*!*@10.0.0.*".to_string()), Some("*!*@10.0.0.2".to_string())][s.pick(4)].clone(),
         });
-        prof.reg_usernames.push("cfgu".into());
+        prof.reg_usernames.push(uname.into());
         if pw.is_some() {
             prof.reg_passwords = vec!["userpass".into(), "userpass".into(), "wrongpass".into()];
         }
@@ -1103,7 +1104,8 @@ fn c20g_build(cfg: &[u16]) -> Built {
             2 => Some("*!*@192.168.*".to_string()),
             _ => None,
         };
-        let name = format!("op{}", i);
+        // (names from the file are case-sensitive like every other name)
+        let name = if s.chance(50) { format!("Op{}", i) } else { format!("op{}", i) };
         let pw = format!("operpw{}", i);
         c.opers.push(OperSpec { name: name.clone(), password: pw.clone(), mask });
         prof.oper_names.push((name, pw));
@@ -1224,6 +1226,10 @@ fn c19_build(cfg: &[u16]) -> Built {
         (K::Away, 4),
         (K::Kill, 3),
         (K::CapPost, 2),
+        // connections that are open but not (yet) registered are no users and no clients
+        (K::RawConnect, 4),
+        (K::RegLine, 6),
+        (K::DropUnreg, 3),
     ]);
     oper_cfg(&mut s, &mut c, &mut prof);
     c.default_modes = ["", "", "i", "o", "O", "io", "iw", "oO"][s.pick(8)].to_string();
